@@ -1,9 +1,13 @@
 (* Property C17 - wallet-facing indexes match the main chain: histories, tx heights, height index.
    Statements only; proofs in Proofs/Paging.v, Proofs/Restart.v, Proofs/ChainInv.v, Proofs/ChainRun.v,
-   Proofs/ChainExamples.v. *)
-From Virel Require Import Lib.Config Lib.U64 Lib.AMap Model.Ledger Model.Node Model.Paging Spec.Chain
+   Proofs/ChainExamples.v; the incoming / outgoing histories and the transaction heights in Proofs/History1.v (numbered
+   histories; the ledger operations as steps on them), History2.v (ledgers: extension and reorganisation), History3.v
+   (every delivery sequence), History4.v (the event lists = those of Check/C17.v), HistoryExamples.v (concrete histories). *)
+From Virel Require Import Lib.Config Lib.U64 Lib.AMap Model.Emission Model.Ledger Model.Node Model.Paging Spec.Chain
+  Proofs.Emission Proofs.Conservation Proofs.Pointwise Proofs.Refine2
   Proofs.NodeBasics Proofs.ForkChoice Proofs.Paging Proofs.Restart Proofs.ChainInv Proofs.ChainRun Proofs.ChainHeights
-  Proofs.ChainExamples Gen.Params.
+  Proofs.ChainExamples Proofs.Undo2 Proofs.Undo4 Proofs.Replay2 Proofs.Replay3 Proofs.Replay4 Proofs.Replay5 Proofs.Replay6
+  Proofs.History1 Proofs.History2 Proofs.History3 Proofs.History4 Proofs.HistoryExamples Check.Hist Check.C01 Check.C17 Gen.Params.
 Open Scope N_scope.
 
 (* "every history page": for every history length n below 2^63 the pages served by get_tx_list partition the ids 1..n:
@@ -70,6 +74,229 @@ Theorem C17_index_premises_satisfiable :
 Proof. exact shorter_heavier_reorg_example. Qed.
 Print Assumptions C17_index_premises_satisfiable.
 
-(* NOT PROVED (stated): after any history the numbered incoming/outgoing histories list exactly the main-chain events and
-   tx heights are those of the containing main-chain block (the height index part IS proved above).  These are
-   decided on the implementation's dumps against an independent replay of the chain content (Check/C17.v). *)
+(* ================================================================================================================ *)
+(* THE HISTORIES AND THE TRANSACTION HEIGHTS, as theorems about the node: whatever route a node took to its current main
+   chain (extensions, any number of reorganisations, refused or crashing deliveries, blocks of other branches stored,
+   the same transaction on several branches), its three wallet-facing indexes are those of the main chain.
+
+   n0 = the node after the genesis block; n = the node after any sequence of deliveries.  [mchain n] = the stored blocks
+   filed in the height index under 1 .. top_h, lowest first (C03_main_chain_is_height_index), [main_lbs g n] = the
+   genesis block followed by them (as the ledger sees them).  The events are read off the chain CONTENT, as Check/C17.v
+   does for a dump of the implementation (Proofs/History1.v):
+     tx_credits t     the outputs of a transaction (recipient, tx id): transfer outputs, the burn address for a
+                      registration, the pool address for a stake, the signer for an unstake;
+     cb_credits b     the coinbase outputs (recipient by output type, block hash), total = reward + fees as the code sums
+                      them;
+     block_credits b  = the credits of its transactions in order, then the coinbase;   main_credits = all blocks in order;
+     block_signs b    = (address of the signer, tx id) of its transactions in order;    main_signs likewise;
+     evs_for a E      = the ids of the events of E that concern address a, in order.
+   PREMISES: those of C03_ledger_is_replay (constants; genesis; fewer than 2^64 - 1 deliveries; [typed]: uint64-typed
+   amounts and version byte of the payload kind for every transaction of a stored block; [paths]: along every chain of
+   stored blocks from genesis the block hashes and transaction ids are pairwise distinct and the counters cannot wrap).
+   Nothing is assumed about transaction ids ACROSS branches: a transaction may sit in a main-chain block and in stored
+   blocks of other branches, at other heights (C17_same_tx_two_branches_example).
+
+   Incoming histories.  For every address a: the incoming counter of its account record is the number of crediting
+   events of a on the main chain, and for every k from 1 to the counter the entry (a, k) of the incoming index is the id
+   of the k-th such event in chain order.  Entries ABOVE the counter may exist (left by disconnected blocks:
+   C17_index_reorg_example) - the node serves the entries 1 .. counter only; a later block overwrites them. *)
+Theorem C17_incoming_history_is_main_chain : forall cfg genesis_addr team_key g n0 ops,
+  cfg_ok_emission cfg = true -> cfg_ok_feepos cfg = true ->
+  node0 cfg genesis_addr g = Ok n0 -> b_height g = 0 -> b_cd g = b_diff g ->
+  N.of_nat (length ops) < two64 - 1 ->
+  let n := run cfg genesis_addr team_key n0 ops in
+  Forall (tx_c cfg) (b_txs g) ->
+  (forall h b, get_block n h = Some b -> Forall (fun t => wf_tx cfg t /\ ver_ok t = true) (b_txs b)) ->
+  (forall bs, up (b_hash g) (blocks n) (b_hash g) bs ->
+     NoDup (bkeys g ++ flat_map bkeys bs) /\ c0 g + bnouts bs < two64 /\ c0 g + bntx bs < two64) ->
+  forall a,
+    let evs := evs_for a (main_credits cfg genesis_addr g n) in
+    inc (acct_at (ldg n) a) = N.of_nat (length evs) /\
+    forall k, 1 <= k <= inc (acct_at (ldg n) a) -> pget (intx (ldg n)) (a, k) = Some (nth (N.to_nat (k - 1)) evs 0).
+Proof. exact incoming_history_is_main_chain. Qed.
+Print Assumptions C17_incoming_history_is_main_chain.
+
+(* Outgoing histories.  For every address a: the nonce of its account record is the number of main-chain transactions
+   signed by a, and the entry (a, k) of the outgoing index, 1 <= k <= nonce, is the id of the k-th of them. *)
+Theorem C17_outgoing_history_is_main_chain : forall cfg genesis_addr team_key g n0 ops,
+  cfg_ok_emission cfg = true -> cfg_ok_feepos cfg = true ->
+  node0 cfg genesis_addr g = Ok n0 -> b_height g = 0 -> b_cd g = b_diff g ->
+  N.of_nat (length ops) < two64 - 1 ->
+  let n := run cfg genesis_addr team_key n0 ops in
+  Forall (tx_c cfg) (b_txs g) ->
+  (forall h b, get_block n h = Some b -> Forall (fun t => wf_tx cfg t /\ ver_ok t = true) (b_txs b)) ->
+  (forall bs, up (b_hash g) (blocks n) (b_hash g) bs ->
+     NoDup (bkeys g ++ flat_map bkeys bs) /\ c0 g + bnouts bs < two64 /\ c0 g + bntx bs < two64) ->
+  forall a,
+    let evs := evs_for a (main_signs g n) in
+    nonce (acct_at (ldg n) a) = N.of_nat (length evs) /\
+    forall k, 1 <= k <= nonce (acct_at (ldg n) a) -> pget (outtx (ldg n)) (a, k) = Some (nth (N.to_nat (k - 1)) evs 0).
+Proof. exact outgoing_history_is_main_chain. Qed.
+Print Assumptions C17_outgoing_history_is_main_chain.
+
+(* Transaction heights.  [on_main g n B]: B is the genesis block or a block of mchain n.  Every transaction of a
+   main-chain block has the height of that block in the table; every id that belongs to no main-chain block has no
+   entry or the height 0 (RemoveTxFromState resets it).  The table keeps ONE height per id: when the same transaction
+   sits in a disconnected block and in a block of the new main chain, the removal (which runs first) sets 0 and the
+   application then sets the height of the new block. *)
+Theorem C17_tx_heights : forall cfg genesis_addr team_key g n0 ops,
+  cfg_ok_emission cfg = true -> cfg_ok_feepos cfg = true ->
+  node0 cfg genesis_addr g = Ok n0 -> b_height g = 0 -> b_cd g = b_diff g ->
+  N.of_nat (length ops) < two64 - 1 ->
+  let n := run cfg genesis_addr team_key n0 ops in
+  Forall (tx_c cfg) (b_txs g) ->
+  (forall h b, get_block n h = Some b -> Forall (fun t => wf_tx cfg t /\ ver_ok t = true) (b_txs b)) ->
+  (forall bs, up (b_hash g) (blocks n) (b_hash g) bs ->
+     NoDup (bkeys g ++ flat_map bkeys bs) /\ c0 g + bnouts bs < two64 /\ c0 g + bntx bs < two64) ->
+  (forall B t, on_main g n B -> In t (b_txs B) -> nget (txh (ldg n)) (tx_id t) = Some (b_height B)) /\
+  (forall id, (forall B t, on_main g n B -> In t (b_txs B) -> tx_id t <> id) ->
+     nget (txh (ldg n)) id = None \/ nget (txh (ldg n)) id = Some 0).
+Proof. exact tx_heights_are_main_chain. Qed.
+Print Assumptions C17_tx_heights.
+
+(* the histories in the form in which Check/C17.v compares a dump ([served idx a count] = the entries 1 .. count):
+   what the node serves for an address = the events of the main chain for that address, in chain order *)
+Theorem C17_histories_as_served : forall cfg genesis_addr team_key g n0 ops,
+  cfg_ok_emission cfg = true -> cfg_ok_feepos cfg = true ->
+  node0 cfg genesis_addr g = Ok n0 -> b_height g = 0 -> b_cd g = b_diff g ->
+  N.of_nat (length ops) < two64 - 1 ->
+  let n := run cfg genesis_addr team_key n0 ops in
+  Forall (tx_c cfg) (b_txs g) ->
+  (forall h b, get_block n h = Some b -> Forall (fun t => wf_tx cfg t /\ ver_ok t = true) (b_txs b)) ->
+  (forall bs, up (b_hash g) (blocks n) (b_hash g) bs ->
+     NoDup (bkeys g ++ flat_map bkeys bs) /\ c0 g + bnouts bs < two64 /\ c0 g + bntx bs < two64) ->
+  forall a,
+    map (fun i => pget (intx (ldg n)) (a, N.of_nat i)) (seq 1 (N.to_nat (inc (acct_at (ldg n) a)))) =
+      map Some (evs_for a (main_credits cfg genesis_addr g n)) /\
+    map (fun i => pget (outtx (ldg n)) (a, N.of_nat i)) (seq 1 (N.to_nat (nonce (acct_at (ldg n) a)))) =
+      map Some (evs_for a (main_signs g n)).
+Proof. exact histories_as_served. Qed.
+Print Assumptions C17_histories_as_served.
+
+(* the event lists of these theorems are the lists Check/C17.v replays from the chain of a dump (block_credits,
+   block_signs of Check/C17.v over genesis :: main chain, totals as plain numbers): every block of the main chain was
+   accepted by ApplyBlockToState, whose checks 391 / 393 say that the fee total and reward + fees did not wrap.
+   [h] is any history record of the harness with the same genesis address (it only supplies that address). *)
+Theorem C17_main_events_as_checked : forall cfg, cfg_ok_emission cfg = true ->
+  forall genesis_addr team_key g n0 ops h,
+  cfg_ok_feepos cfg = true ->
+  node0 cfg genesis_addr g = Ok n0 -> b_height g = 0 -> b_cd g = b_diff g ->
+  N.of_nat (length ops) < two64 - 1 ->
+  let n := run cfg genesis_addr team_key n0 ops in
+  Forall (tx_c cfg) (b_txs g) ->
+  (forall h b, get_block n h = Some b -> Forall (fun t => wf_tx cfg t /\ ver_ok t = true) (b_txs b)) ->
+  (forall bs, up (b_hash g) (blocks n) (b_hash g) bs ->
+     NoDup (bkeys g ++ flat_map bkeys bs) /\ c0 g + bnouts bs < two64 /\ c0 g + bntx bs < two64) ->
+  h_genesis_addr h = genesis_addr ->
+  main_credits cfg genesis_addr g n = flat_map (Check.C17.block_credits cfg h) (g :: mchain n) /\
+  main_signs g n = flat_map Check.C17.block_signs (g :: mchain n).
+Proof. exact main_events_as_checked. Qed.
+Print Assumptions C17_main_events_as_checked.
+
+(* the same three facts with the per-transaction conditions as one premise on the store (store_pre of Proofs/Replay4.v:
+   no use of stateless validation); tinv / hinv of Proofs/History1.v are the two shapes spelled out above *)
+Theorem C17_indexes_are_main_chain_general : forall cfg genesis_addr team_key g n0 ops,
+  cfg_ok_emission cfg = true ->
+  node0 cfg genesis_addr g = Ok n0 -> b_height g = 0 -> b_cd g = b_diff g ->
+  N.of_nat (length ops) < two64 - 1 ->
+  let n := run cfg genesis_addr team_key n0 ops in
+  store_pre cfg g (blocks n) ->
+  tinv (cI (ldg n)) (intx (ldg n)) (chain_credits cfg genesis_addr (main_lbs g n)) /\
+  tinv (cN (ldg n)) (outtx (ldg n)) (chain_signs (main_lbs g n)) /\
+  hinv (txh (ldg n)) (chain_txhs (main_lbs g n)).
+Proof. exact indexes_are_main_chain. Qed.
+Print Assumptions C17_indexes_are_main_chain_general.
+
+(* the ledger-level step of a reorganisation: disconnect the blocks O above the prefix P, connect the blocks N; the
+   replay invariant of C03 together with the index invariant TI (Proofs/History2.v) is kept *)
+Theorem C17_reorganisation_keeps_indexes : forall cfg genesis_addr, cfg_ok_emission cfg = true ->
+  forall l0 gk c0 E0 S0 H0 P O N L L2 L3,
+  base_ok cfg l0 gk c0 -> base_t l0 gk E0 S0 H0 -> chain_ok cfg gk c0 (P ++ O) -> chain_ok cfg gk c0 (P ++ N) ->
+  QInv cfg genesis_addr l0 E0 S0 H0 (P ++ O) L ->
+  remove_chain cfg genesis_addr L (rev O) = Ok L2 ->
+  apply_chain cfg genesis_addr L2 N = Ok L3 ->
+  QInv cfg genesis_addr l0 E0 S0 H0 (P ++ N) L3.
+Proof. exact QInv_reorg. Qed.
+Print Assumptions C17_reorganisation_keeps_indexes.
+
+(* the removal functions never write the incoming and outgoing indexes, and reset the height of each transaction *)
+Theorem C17_disconnect_leaves_indexes : forall cfg genesis_addr l b top l',
+  remove_block cfg genesis_addr l b top = Ok l' ->
+  intx l' = intx l /\ outtx l' = outtx l /\
+  forall id, nget (txh l') id = if in_dec N.eq_dec id (block_ids b) then Some 0 else nget (txh l) id.
+Proof. exact remove_block_tabs. Qed.
+Print Assumptions C17_disconnect_leaves_indexes.
+
+(* ---- non-vacuity ---- *)
+Theorem C17_cfg_ok_mainnet : cfg_ok_emission cfg_mainnet = true /\ cfg_ok_feepos cfg_mainnet = true.
+Proof. split; vm_compute; reflexivity. Qed.
+Print Assumptions C17_cfg_ok_mainnet.
+Theorem C17_cfg_ok_testnet : cfg_ok_emission cfg_testnet = true /\ cfg_ok_feepos cfg_testnet = true.
+Proof. split; vm_compute; reflexivity. Qed.
+Print Assumptions C17_cfg_ok_testnet.
+Theorem C17_cfg_ok_unittest : cfg_ok_emission cfg_unittest = true /\ cfg_ok_feepos cfg_unittest = true.
+Proof. split; vm_compute; reflexivity. Qed.
+Print Assumptions C17_cfg_ok_unittest.
+Theorem C17_cfg_ok_verifnet : cfg_ok_emission cfg_verifnet = true /\ cfg_ok_feepos cfg_verifnet = true.
+Proof. split; vm_compute; reflexivity. Qed.
+Print Assumptions C17_cfg_ok_verifnet.
+
+(* the reorganising history of C17_index_premises_satisfiable (G-A1-A2-A3 to G-B-D) satisfies every premise
+   (C03_replay_premises_satisfiable); its indexes: address 7 (recipient of every coinbase) has 8 entries before and 6
+   served entries after the reorganisation; the entries 7 and 8 written by A3 (hash 8) and the entry (0, 1) stay in the
+   table above the counters *)
+Theorem C17_index_reorg_example :
+  let n := run cfg_verifnet 7 0 ex_n0 sr_ops in
+  map b_hash (mchain n) = [4; 6] /\
+  main_credits cfg_verifnet 7 w_genesis n = [(7, 1); (7, 1); (7, 4); (7, 4); (7, 6); (7, 6)] /\
+  intx (ldg n) = [(7, 1, 1); (7, 2, 1); (7, 3, 4); (7, 4, 4); (7, 5, 6); (7, 6, 6); (7, 7, 8); (7, 8, 8); (0, 1, 8)] /\
+  inc (acct_at (ldg n) 7) = 6 /\ inc (acct_at (ldg n) 0) = 0 /\
+  (let m := run cfg_verifnet 7 0 ex_n0 (firstn 3 sr_ops) in
+   map b_hash (mchain m) = [2; 3; 8] /\ inc (acct_at (ldg m) 7) = 8 /\ inc (acct_at (ldg m) 0) = 1 /\
+   intx (ldg m) = [(7, 1, 1); (7, 2, 1); (7, 3, 2); (7, 4, 2); (7, 5, 3); (7, 6, 3); (7, 7, 8); (7, 8, 8); (0, 1, 8)]).
+Proof. exact index_reorg_example. Qed.
+Print Assumptions C17_index_reorg_example.
+
+(* a history with transactions: A1 (height 1) holds T1 (id 100) and T2 (id 101) signed by key 3 (address 7); the block D
+   (height 2) of the other branch holds the SAME transaction T1.  Every premise holds for it: *)
+Theorem C17_index_premises_with_transactions :
+  node0 cfg_verifnet 7 w_genesis = Ok ex_n0 /\
+  let n := run cfg_verifnet 7 0 ex_n0 tx_ops in
+  cfg_ok_emission cfg_verifnet = true /\ cfg_ok_feepos cfg_verifnet = true /\
+  b_height w_genesis = 0 /\ b_cd w_genesis = b_diff w_genesis /\ N.of_nat (length tx_ops) < two64 - 1 /\
+  Forall (tx_c cfg_verifnet) (b_txs w_genesis) /\
+  (forall h b, get_block n h = Some b -> Forall (fun t => wf_tx cfg_verifnet t /\ ver_ok t = true) (b_txs b)) /\
+  (forall bs, up (b_hash w_genesis) (blocks n) (b_hash w_genesis) bs ->
+     NoDup (bkeys w_genesis ++ flat_map bkeys bs) /\ c0 w_genesis + bnouts bs < two64 /\ c0 w_genesis + bntx bs < two64).
+Proof. exact index_premises_with_transactions. Qed.
+Print Assumptions C17_index_premises_with_transactions.
+
+(* and its indexes, by evaluation: after the reorganisation to G-B-D the one height kept for id 100 is 2, id 101 has
+   height 0, the nonce of address 7 is 1 (its outgoing entry 2 is stale), the incoming entries (11, 1) and (9, 2)
+   written by T2 are stale (counters 0 and 1) *)
+Theorem C17_same_tx_two_branches_example :
+  w_outcomes ex_n0 tx_ops = [Accepted; Accepted; Accepted] /\
+  (let m := run cfg_verifnet 7 0 ex_n0 (firstn 2 tx_ops) in
+   map b_hash (mchain m) = [2] /\
+   txh (ldg m) = [(100, 1); (101, 1)] /\ outtx (ldg m) = [(7, 1, 100); (7, 2, 101)] /\ nonce (acct_at (ldg m) 7) = 2 /\
+   inc (acct_at (ldg m) 9) = 2 /\ inc (acct_at (ldg m) 11) = 1) /\
+  (let n := run cfg_verifnet 7 0 ex_n0 tx_ops in
+   map b_hash (mchain n) = [4; 6] /\
+   txh (ldg n) = [(100, 2); (101, 0)] /\
+   outtx (ldg n) = [(7, 1, 100); (7, 2, 101)] /\ nonce (acct_at (ldg n) 7) = 1 /\
+   intx (ldg n) = [(7, 1, 1); (7, 2, 1); (9, 1, 100); (11, 1, 101); (9, 2, 101); (7, 3, 4); (7, 4, 4); (7, 5, 6); (7, 6, 6)] /\
+   inc (acct_at (ldg n) 7) = 6 /\ inc (acct_at (ldg n) 9) = 1 /\ inc (acct_at (ldg n) 11) = 0 /\
+   main_credits cfg_verifnet 7 w_genesis n = [(7, 1); (7, 1); (7, 4); (7, 4); (9, 100); (7, 6); (7, 6)] /\
+   main_signs w_genesis n = [(7, 100)] /\
+   chain_txhs (main_lbs w_genesis n) = [(100, 2)]).
+Proof. exact same_tx_two_branches_example. Qed.
+Print Assumptions C17_same_tx_two_branches_example.
+
+(* REMAINING GAPS:
+   - the premises [typed] and [paths] are stated on the store, not derived, exactly as for C03_ledger_is_replay
+     (transaction ids and block hashes are symbolic numbers in the model; the typing is a property of the decoder);
+   - the theorems speak about the model's ledger record; that the implementation's RPC handlers read these tables
+     (GetIncomingTx / GetOutgoingTx / GetTxHeight) and page them as C17_pages_partition says is checked on the
+     implementation's dumps (Check/C17.v, Check/C17p.v), not proved;
+   - entries above the counters are unconstrained on purpose: they exist (C17_index_reorg_example) and are never
+     served; a database dump that lists ALL entries of the index would show them. *)
